@@ -68,6 +68,19 @@ def lock_invariant_reverse(o):
     return all(e[1] is not None and e[4] is True for e in rel)
 
 
+def looked_under_lock(trace, x, mx):
+    """the trace has lock(mx) .. STATUS_READ(x) with no unlock(mx) in between"""
+    held = False
+    for e in trace:
+        if e[0] == 'OP' and e[1] == mx and e[2] == 'lock':
+            held = True
+        elif e[0] == 'OP' and e[1] == mx and e[2] == 'unlock':
+            held = False
+        elif e[0] == 'STATUS_READ' and e[1] == x and held:
+            return True
+    return False
+
+
 def notifications(o):
     res = []
     for e in o.st.trace:
@@ -151,6 +164,14 @@ def check_mutations(ctx, prog, S):
                                 ctx.prove(name + '.silent_only_without_monitor_or_acceptance', o.st.pc, z3.Or(z3.BoolVal(not want_rcpt), z3.Not(accepted_any)), group='C11.join.notifications', key='C11.join', on_cex=cex)
                             if added:
                                 seen.add('join_effective')
+                                # the exit publishes Stopping and only then takes the actor's relations lock to clean up: a join is safe against a racing exit only
+                                # if the status look that lets the actor in happens while the join holds that very lock (a look before it can be overtaken by a whole exit)
+                                mxs = w.mutex_of(o.st)
+                                for x in sorted(added):
+                                    ctx.prove('%s.%s_admitted_on_a_status_look_taken_under_its_relations_lock' % (name, x), o.st.pc, z3.BoolVal(looked_under_lock(o.st.trace, x, mxs.get(x))),
+                                              group='C11.join.admitted_on_a_status_look_taken_under_the_relations_lock', key='C11.join.admitted_on_a_status_look_taken_under_the_relations_lock',
+                                              on_cex=(lambda m: replay_join_exit()))
+                                seen.add('join_lock_look')
                         else:
                             claims['leave_removes_exactly_the_named_actors'] = after == before - set(who)
                             if before & set(who):
@@ -283,6 +304,13 @@ def replay(op, g, who, members, listeners, world, S):
     if k not in _replayed:
         _replayed[k] = C11_replay.replay(op, g, who, members, listeners, world, S)
     return _replayed[k]
+
+
+def replay_join_exit():
+    import C11_replay
+    if 'join_exit' not in _replayed:
+        _replayed['join_exit'] = C11_replay.race_join_exit()
+    return _replayed['join_exit']
 
 
 def replay_last_leave():
